@@ -92,3 +92,11 @@ def run(ctx):
         ctx.guarded(r, XC.check_fixed_area, kind)
     r = ctx.rule("R5k", "aarch64 single-point / interval min and max branch only on conditions that are false for NaN and for equal operands (the value then comes from fmin / fmax, which propagate NaN like the interpreter)", 8)
     ctx.guarded(r, XC.check_strictness)
+    from .. import x86sem as XS86
+
+    r = ctx.rule("R2o", "x86_64 branch-free arithmetic clauses leave op(lhs, rhs) in every lane of the output (symbolic lanes and bit masks, output aliased to either operand)", 10 + 12 + 4 + 9)
+    for kind in AC.ALL:
+        ctx.guarded(r, XS86.check_lane_semantics, kind)
+    r = ctx.rule("R5l", "aarch64 clauses compare tape values as floats (an integer cmeq tells -0.0 from 0.0, unlike the interpreter)", 9 + 16 + 7 + 7)
+    for kind in X64.KINDS:
+        ctx.guarded(r, XC.check_int_compare, kind)
